@@ -1,3 +1,4 @@
+mod custom;
 mod cx;
 mod drv;
 mod hashrec;
@@ -33,6 +34,26 @@ fn main() {
             let codec = args[3].as_str();
             let seed: u64 = args[4].parse().unwrap();
             let scale: usize = args[5].parse().unwrap();
+            if scen == "c05multi" {
+                // every codec's tables in ONE process, starting with `codec` and continuing in rotated
+                // order (twice): state shared between codecs (statics, lazily built tables) would show
+                let all = &cx::CODECS[..7]; // the seven built-in codecs
+                let first = all.iter().position(|c| *c == codec).expect("codec");
+                let mut f = std::io::BufWriter::new(std::fs::File::create(&args[6]).unwrap());
+                let mut n = 0;
+                for round in 0..2 {
+                    for i in 0..all.len() {
+                        let name = if round == 0 { all[(first + i) % all.len()] } else { all[(first + all.len() - i) % all.len()] };
+                        let lines = with_codec!(name, A => scen::c05::cells::<A>());
+                        for l in &lines {
+                            writeln!(f, "{l}").unwrap();
+                        }
+                        n += lines.len();
+                    }
+                }
+                println!("{n}");
+                return;
+            }
             world::CANON.store(world::canon_scenario(scen), std::sync::atomic::Ordering::Relaxed);
             // lines are streamed to the file as they are produced (a crash leaves the prefix behind)
             let lines = with_codec!(codec, A => scen::run::<A>(scen, seed, scale, Some(args[6].as_str())));
